@@ -334,15 +334,31 @@ End Helix.
 
 (* ------------------------------------------------------------------ taper: a cone of half-angle `taper` *)
 
-Theorem screw_taper_cone : forall (s : ScrewSDF3 ROps) rho a z, 0 <= rho ->
-  vy (screw_map s (mkV3 (rho * cos a) (rho * sin a) z)) = rho + z * tan (s_taper s).
+Lemma screw_taper_abs : forall (s : ScrewSDF3 ROps) rho a z, 0 <= rho ->
+  vy (screw_map s (mkV3 (rho * cos a) (rho * sin a) z)) = Rabs (rho + z * tan (s_taper s)).
 Proof.
   intros s rho a z Hrho. unfold screw_map. cbn [vy wx wy wz].
-  cbn [osqrt oadd omul otan oeqb o0 ROps].
+  cbn [osqrt oadd omul otan oeqb oabs o0 ROps].
   rewrite rho_of_polar by exact Hrho.
   destruct (Reqb (s_taper s) 0) eqn:E; cbn [negb].
-  - apply Reqb_true in E. rewrite E, tan_0. change (T ROps) with R. ring.
+  - apply Reqb_true in E. rewrite E, tan_0. rewrite Rmult_0_r, Rplus_0_r. symmetry. apply Rabs_pos_eq. exact Hrho.
   - reflexivity.
+Qed.
+
+(* outside the cone rho = - z tan(taper) around the axis the profile ordinate is rho + z tan(taper):
+   the level sets of the profile are cones of half-angle `taper`; nearer the axis the point stays
+   inside (mirrored), it does not drop below the profile *)
+Theorem screw_taper_cone : forall (s : ScrewSDF3 ROps) rho a z, 0 <= rho ->
+  0 <= rho + z * tan (s_taper s) ->
+  vy (screw_map s (mkV3 (rho * cos a) (rho * sin a) z)) = rho + z * tan (s_taper s).
+Proof.
+  intros s rho a z Hrho Hpos. rewrite screw_taper_abs by exact Hrho. apply Rabs_pos_eq. exact Hpos.
+Qed.
+
+Theorem screw_map_ordinate_nonneg : forall (s : ScrewSDF3 ROps) x y z, 0 <= vy (screw_map s (mkV3 x y z)).
+Proof.
+  intros s x y z. unfold screw_map. cbn [vy wx wy wz]. cbn [osqrt oadd omul otan oeqb oabs o0 ROps].
+  destruct (negb (Reqb (s_taper s) 0)); [apply Rabs_pos | apply sqrt_pos].
 Qed.
 
 (* ------------------------------------------------------------------ the constructor *)
